@@ -3230,6 +3230,49 @@ def materialise_inherited_methods(trees, base, log):
                 log.append(f'N2 {mn}: {c.name}.{m} is now inherited (implementation moved to a base class): copied back into {c.name}')
 
 
+def strip_lock_blocks(trees, base, log):
+    """`with self.L: BODY` where L is a new field bound to `threading.Lock()` / `RLock()` in the constructor  ->  BODY.  The rules decide what
+    one thread does; mutual exclusion changes nothing of that.  (What runs while the lock is held -- a callback that can re-enter -- is a
+    rule of its own, read in the source as written.)"""
+    known = set(base.get('__attrs__', []))
+    n = 0
+    for tree in trees.values():
+        for c in [c for c in tree.body if isinstance(c, ast.ClassDef)]:
+            locks = set()
+            for x in ast.walk(c):
+                if isinstance(x, (ast.Assign, ast.AnnAssign)) and isinstance(getattr(x, 'value', None), ast.Call) \
+                        and _txt(x.value.func) in ('threading.Lock', 'threading.RLock', 'Lock', 'RLock') and not x.value.args:
+                    for t in (x.targets if isinstance(x, ast.Assign) else [x.target]):
+                        if isinstance(t, ast.Attribute) and _txt(t.value) == 'self' and t.attr not in known:
+                            locks.add(t.attr)
+            if not locks:
+                continue
+
+            def block(stmts):
+                nonlocal n
+                out = []
+                for st in stmts:
+                    for field in ('body', 'orelse', 'finalbody'):
+                        v = getattr(st, field, None)
+                        if isinstance(v, list) and v and isinstance(v[0], ast.stmt) and not isinstance(st, (ast.FunctionDef, ast.AsyncFunctionDef, ast.ClassDef)):
+                            setattr(st, field, block(v))
+                    if isinstance(st, ast.Try):
+                        for h in st.handlers:
+                            h.body = block(h.body)
+                    if isinstance(st, ast.With) and len(st.items) == 1 and st.items[0].optional_vars is None and isinstance(st.items[0].context_expr, ast.Attribute) \
+                            and _txt(st.items[0].context_expr.value) == 'self' and st.items[0].context_expr.attr in locks:
+                        out.extend(st.body)
+                        n += 1
+                        continue
+                    out.append(st)
+                return out
+            for m in c.body:
+                if isinstance(m, (ast.FunctionDef, ast.AsyncFunctionDef)):
+                    m.body = block(m.body)
+    if n:
+        log.append(f'N6 {n} `with self.<lock>:` block(s) of a new threading lock replaced by their body (single-thread reading)')
+
+
 def _paths_read(e):
     """texts of the attribute / subscript access paths read by e"""
     out = set()
@@ -4458,6 +4501,7 @@ def run(trees, baseline=None):
     log = []
     undo_renames(trees, base, log)
     materialise_inherited_methods(trees, base, log)
+    strip_lock_blocks(trees, base, log)
     match_to_if(trees, log)
     refinement_chains(trees, log)
     named_tuple_records(trees, base, log)
